@@ -7,8 +7,8 @@
 * `J.print` — the canonical text (no blanks, keys in list order).
 * `Filter` — the jq fragment the generators use: paths `.a.b`, literals, object construction
   `{x: f, y: g}`, array construction `[f, g]`, alternative `f // g`. `Filter.eval` returns `none` for a
-  jq error (indexing a scalar/array with a string key). Every filter of the fragment has exactly one
-  output or an error; multi-output jq programs are outside the fragment.
+  jq error (indexing a scalar/array with a string key). A `Filter` has exactly one output or an error;
+  a `Prog` may join several filters with `,` at top level (several outputs, merged the legacy way).
 -/
 namespace ShellOp.Json
 
@@ -180,5 +180,37 @@ end
 def objOnly : J → J
   | .obj kvs => .obj kvs
   | _ => .obj []
+
+/-- The legacy merge of `jq.ApplyFilter`: the object-valued outputs are copied into one map in
+output order (later keys win), outputs of other types are ignored. -/
+def mergeObjects (outs : List J) : J :=
+  .obj (outs.foldl (fun acc o =>
+    match o with
+    | .obj kvs => kvs.foldl (fun a kv => insertKey kv.1 kv.2 a) acc
+    | _ => acc) [])
+
+/-- A jq program as the generators write it: one expression of the fragment, or several separated
+by `,` at top level (one output each, in order). -/
+inductive Prog where
+  | one (f : Filter)
+  | many (fs : List Filter)
+  deriving Repr, Inhabited
+
+/-- All outputs, or `none` when some part fails (the outputs before the failure are discarded:
+`run` in apply.go returns the error). -/
+def Prog.outputs : Prog → J → Option (List J)
+  | .one f, j => (f.eval j).map (fun v => [v])
+  | .many fs, j => evalItems fs j
+
+/-- `ApplyFilterValue`: exactly one output is returned as it is, whatever its type; for any other
+number of outputs the legacy merge of the object-valued outputs. -/
+def Prog.eval (p : Prog) (j : J) : Option J :=
+  (p.outputs j).map (fun outs =>
+    match outs with
+    | [v] => v
+    | _ => mergeObjects outs)
+
+/-- `ApplyFilter` (what the unrepaired code used everywhere): always the legacy merge. -/
+def Prog.evalLegacy (p : Prog) (j : J) : Option J := (p.outputs j).map mergeObjects
 
 end ShellOp.Json
